@@ -134,7 +134,7 @@ static unsigned g_poison; /* 0 = no stack poisoning */
 uint8_t gbuf_canary(size_t i) { return (uint8_t)((0xA5 ^ (i * 7)) ^ (g_poison * 0x3B)); }
 gbuf gbuf_new(size_t size, unsigned align) {
     gbuf g;
-    g.pad = 64;
+    g.pad = 1024; /* wide enough to absorb sizeable overruns without corrupting the allocator */
     g.size = size;
     g.base = malloc(size + 2 * g.pad + 32);
     uintptr_t a = (uintptr_t)(g.base + g.pad);
@@ -224,8 +224,17 @@ int valloc_available(void) { return 0; }
 /* ---- running one case ---- */
 static __thread sigjmp_buf g_jmp;
 static __thread volatile int g_in_case;
+static volatile int g_fatal; /* set when the process must stop after the current line */
 static void on_fault(int sig) {
-    if (g_in_case) siglongjmp(g_jmp, sig);
+    if (g_in_case) {
+        /* an abort raised inside a case is almost always the allocator
+         * detecting heap corruption: report it for this case, then stop the
+         * process (the harness restarts the driver at the next case) */
+        if (sig == SIGABRT) g_fatal = 1;
+        siglongjmp(g_jmp, sig);
+    }
+    /* outside a case: keep what was printed so far, the last line marks where */
+    fflush(stdout);
     _exit(3);
 }
 
@@ -260,6 +269,15 @@ static char *run_case(char *text) {
         g_in_case = 0;
         valloc_end(NULL);
         fault = sig == SIGSEGV || sig == SIGBUS ? "segv" : sig == SIGABRT ? "abort" : sig == SIGFPE ? "fpe" : "ill";
+    }
+    if (g_fatal) {
+        /* do not touch the heap any more */
+        static char small[512];
+        snprintf(small, sizeof small, "%.400s -> fault=%s", echo, fault ? fault : "abort");
+        fflush(stdout);
+        (void)!write(1, small, strlen(small));
+        (void)!write(1, "\n", 1);
+        _exit(4);
     }
     size_t n = strlen(echo) + 4 + (fault ? 16 : (g_line ? strlen(g_line) : 0)) + 1;
     char *out = malloc(n);
@@ -412,8 +430,13 @@ int main(int argc, char **argv) {
         char *c = strdup(g_cases[i]);
         outs[i] = run_case(c);
         free(c);
+        if (shuffle < 0) { /* in-order: print at once, so a dying process leaves its trail */
+            puts(outs[i]);
+            free(outs[i]);
+            outs[i] = NULL;
+        }
     }
-    for (size_t i = 0; i < g_ncases; i++) { puts(outs[i]); free(outs[i]); }
+    for (size_t i = 0; i < g_ncases; i++) if (outs[i]) { puts(outs[i]); free(outs[i]); }
     fflush(stdout);
     return 0;
 }
